@@ -154,6 +154,27 @@ def run_cli_history(spec, tier, seed):
                                   f'{[(k, m1.get(k), m2.get(k)) for k in d[:3]]}', rp)
             if len(res.samples) < 1:
                 res.sample({'persona': p.describe(), 'run1_prompts': len(given), 'run2_prompts': len(asked), 'solution_identical': True})
+            # a request that does not lead to Form 1040 (a statement form alone): the command line asks exactly what the
+            # solver asks for that request through the API - nothing about forms nobody requested
+            from hv import realwork
+            req = ['w-2:0']
+            path3 = os.path.join(tmp, 'in3.ini')
+            c20.write_ini(path3, {})
+            p3 = scen.Persona(year, fam, f'c13cli:{seed}:{k}')
+
+            def a3(name, p3=p3):
+                return p3.answer(lookup.get(name))
+            a3.lookup = lookup
+            r3, given3 = c20.session(year, req, path3, a3)
+            p4 = scen.Persona(year, fam, f'c13cli:{seed}:{k}')
+            o4, tv4, _ = realwork.traced(p4, forms=req)
+            res.evaluations += 1
+            res.count('cli_requests_without_1040')
+            asked_cli, asked_api = [nm for nm, t in given3], [x[0] for x in tv4.prompts]
+            if sorted(asked_cli) != sorted(asked_api):
+                extra = sorted(set(asked_cli) - set(asked_api))[:3]
+                res.violation('C13|cli|asks-beyond-the-request', f'{year} `solve --form {req[0]} --prompt-missing` asked {len(asked_cli)} questions, the solver asks {len(asked_api)} for that request; '
+                              f'only at the command line: {extra}', {'engine': 'cli-history', 'persona': p3.describe(), 'request': req, 'shard': spec})
         finally:
             import shutil
             shutil.rmtree(tmp, ignore_errors=True)
